@@ -11,6 +11,8 @@ pub trait Serialize {
     spec fn ser_ok(&self, out: Seq<u8>) -> bool;
     // serialization may legitimately fail with this exception (a point handler raised it)
     spec fn ser_exc(&self, e: ExceptionCode) -> bool;
+    // serialization may refuse the value as an invalid request (only the client's write-multiple requests do) [C03]
+    spec fn ser_may_reject(&self) -> bool;
 
 //@fn rodbus/src/common/traits.rs | trait Serialize::serialize | tags=C01,C03
 //@|    requires old(cursor).wf(), self.ser_pre(),
@@ -19,7 +21,7 @@ pub trait Serialize {
 //@|        (forall|i: int| 0 <= i < old(cursor).pos ==> #[trigger] final(cursor).buf()[i] == old(cursor).buf()[i]),   // nothing already written is touched
 //@|        r is Ok ==> self.ser_ok(final(cursor).buf().subrange(old(cursor).pos as int, final(cursor).pos as int)),
 //@|        r matches Err(RequestError::Exception(e)) ==> self.ser_exc(e),
-//@|        r is Err ==> (r->Err_0 is Exception || r->Err_0 is Internal),   // nothing else can go wrong while serializing
+//@|        r is Err ==> (r->Err_0 is Exception || r->Err_0 is Internal || (r->Err_0 is BadRequest && self.ser_may_reject())),   // nothing else can go wrong while serializing
 }
 
 // R8: `Loggable` bodies are formatting code and are not extracted; the trait is kept as a marker so that bounds type-check
